@@ -263,6 +263,18 @@ void gen(vh::Rng &r, Scenario &S, vh::Sig &sig) {
             add(S_MARK_PARK_END);
             add(S_RELEASE, g); open_gates.clear();
         }
+        // "retire race": with min < max a surplus worker retires as soon as it finds no work; keep submitting
+        // short tasks at about the moment the previous one ends, so that execute() lands around that decision
+        if (!S.work_thread && S.mn < S.mx && r.chance(1, 4)) {
+            int m = 10 + (int)r.below(50);
+            static const int gaps[] = {1, 1, 5, 5, 30, 100};
+            for (int i = 0; i < m; ++i) {
+                add(S_EXEC, (int)r.range(-2, 2), r.chance(3, 4) ? 0 : 1, -1, r.chance(1, 3)); ++ntasks_total;
+                add(S_SPIN, r.pick(gaps));
+                if (r.chance(1, 8)) add(S_STATUS, ntasks_total - 1);
+            }
+            vh::counter("retire_race_bursts");
+        }
         for (int i = 0; i < n; ++i) {
             switch (r.below(12)) {
                 case 0: case 1: case 2: case 3: case 4: {
